@@ -12,7 +12,7 @@ INFO = {
                "either crate touches the process' standard streams or exits the process; Master::go flushes the "
                "output writer (propagating the error) before every successful return; and read_input routes "
                "diagnostics to the stderr parameter only under --on-error=stderr and rows/diagnostics to the stdout "
-               "parameter otherwise (shared rule C06-ROUTE).",
+               "parameter otherwise (shared rule C06-ROUTE). Output leaves the library only through write_fmt / write_all on the stream main handed in, and the only flush is Master::go's: a buffer of the library's own could fail after go() answered Ok.",
     "not_decided": "What the operating system does with a closed pipe (SIGPIPE) and clap's own exit codes for "
                    "argument errors.",
     "trusted": ["std::io::stdout/stderr/stdin/_print/_eprint and std::process::exit are the only std entry points "
